@@ -12,6 +12,7 @@ demo=$(cd $src && git status --porcelain | grep zz_seed_demo_test.go | awk '{pri
 [ -z "$demo" ] && demo=$(cd $src && find . -name zz_seed_demo_test.go | head -1 | sed 's|^\./||')
 cp $src/$demo $dst/$(basename $demo)
 pkgdir=$(dirname $demo)
+[ -d /tmp/mut ] || { git -C /repo worktree prune; git -C /repo worktree add -q --detach /tmp/mut HEAD; }
 cd /tmp/mut && git checkout -q -- . && git clean -fdq && git checkout -q --detach $(git -C /repo rev-parse HEAD)
 git apply $dst/patch.diff || { echo "PATCH DOES NOT APPLY"; exit 1; }
 b=$(go build ./... 2>&1 | tail -1); echo "build: ${b:-ok}"
